@@ -233,3 +233,48 @@ theorem pipeline_from_start (n : Nat) (inmem : Bool) (d0 : Bytes) (ws : Nat → 
   pipeline_deterministic n inmem d0 ws sched _ g' (ginv_init n inmem d0 ws) hr hc
 
 end PL
+
+namespace PL
+open TB
+
+/-- **Pipeline progress.** In every state the invariant allows, as long as a chromosome is still to be handed
+    over some step is enabled: a producer step or a consumer step on the current chromosome, or — once
+    `await_real_file` has returned — moving the file on. Together with the bound on every buffer's run length
+    (`Props.C12.schedule_length_le`) no schedule can get stuck or run forever before all chromosomes are written. -/
+theorem pipeline_progress (n : Nat) (ws : Nat → List Bytes) (d0 : Bytes) (g : G) (h : GInv n ws d0 g)
+    (hc : g.cur < n) : ∃ a g', gstep n g a = some g' := by
+  rcases tb_progress (pre d0 ws g.cur) (g.bufs g.cur) (h.current hc) (h.book _ hc).2 with ⟨d, hd⟩ | ⟨a, s', hs⟩
+  · refine ⟨.next, ?_⟩
+    simp only [gstep, hc, if_true, hd]
+    by_cases hn : g.cur + 1 < n
+    · exact ⟨_, by rw [if_pos hn]⟩
+    · exact ⟨_, by rw [if_neg hn]⟩
+  · by_cases hp : isProd a = true
+    · exact ⟨.prod g.cur a, { g with bufs := setBuf g.bufs g.cur s' }, by simp [gstep, hc, hp, hs]⟩
+    · exact ⟨.cons a, { g with bufs := setBuf g.bufs g.cur s' }, by simp [gstep, hc, hp, hs]⟩
+
+/-- every reachable state of the pipeline satisfies the invariant -/
+theorem ginv_run (n : Nat) (ws : Nat → List Bytes) (d0 : Bytes) :
+    ∀ (sched : List GAct) (g g' : G), GInv n ws d0 g → grun n g sched = some g' → GInv n ws d0 g' := by
+  intro sched
+  induction sched with
+  | nil => intro g g' h hr; simp [grun] at hr; subst hr; exact h
+  | cons a as ih =>
+    intro g g' h hr
+    simp only [grun] at hr
+    split at hr
+    · rename_i g1 hg1
+      exact ih g1 g' (ginv_step n ws d0 g g1 a h hg1) hr
+    · cases hr
+
+/-- **No deadlock**: from the start, after any interleaving, either every chromosome has been written or a step
+    is enabled. -/
+theorem pipeline_never_stuck (n : Nat) (inmem : Bool) (d0 : Bytes) (ws : Nat → List Bytes) (sched : List GAct) (g' : G)
+    (hr : grun n (ginit n inmem d0 ws) sched = some g') :
+    g'.cur = n ∨ ∃ a g'', gstep n g' a = some g'' := by
+  have h := ginv_run n ws d0 sched _ g' (ginv_init n inmem d0 ws) hr
+  by_cases hc : g'.cur < n
+  · exact Or.inr (pipeline_progress n ws d0 g' h hc)
+  · exact Or.inl (by have := h.cur_le; omega)
+
+end PL
